@@ -7,8 +7,11 @@ VERIF = os.path.dirname(os.path.dirname(os.path.abspath(__file__)))
 
 CORR = ("; the model is defined over constants extracted from the source on every run and is tied to the Python by a "
         "differential correspondence run (boundary-directed generators) plus an independent property oracle on the real code")
-NOTE = ("Lean kernel + propext/Classical.choice/Quot.sound (audited per theorem); Python control flow hand-modelled and tied by "
-        "correspondence only; ")
+NOTE = ("Lean kernel + propext/Classical.choice/Quot.sound (audited per theorem); Python control flow is modelled by hand and tied "
+        "to the source (a) by the differential correspondence run in every tier and (b) in the thorough tier by a machine "
+        "translation of 123 functions of the package (all of bech32.py and bip32.py, Base58, varint/script, BIP39 sentence and "
+        "seed, keys.py, base_wallet.py, bip85.py, paper_wallet.py reports, paranoia_mode, CLI validators) PROVED equal to the model "
+        "(Props/Tr*.lean; the tables the translators use are their trusted base, DESIGN 10.6/10.15/10.16); ")
 TECH = "Lean 4 theorems over an executable model + model/implementation correspondence"
 
 CLAIMED = {
@@ -117,7 +120,7 @@ def main():
           for p in props if p["id"] not in CLAIMED or not _has_props(p["id"])]
     man = {
         "version": 1,
-        "setup_cmd": "/venv/bin/python harness/extract.py && cd lean && lake build BtcHd driver",
+        "setup_cmd": "/venv/bin/python harness/regen.py && cd lean && lake build BtcHd driver",
         "hooks": {
             "guard": "BTC_HD_WALLET_VERIF",
             "enable": "no source hooks are needed: PRF substitution, os.urandom observation, stdout/exit capture are done from outside by the harness",
